@@ -59,7 +59,7 @@ class C10(Prop):
 
     def gen(self, tier, R):
         out = [(c, 'release') for c in trees.gen_opt('quick' if tier == 'quick' else 'thorough', R, kind='opt')]
-        out += [(c.replace('(opt _', '(case _', 1), 'release') for c, _ in out[:len(out) // 3]]
+        out += [(c.replace('(opt _', '(case _', 1), 'release') for c, _ in list(out)]   # every tree also through validate-then-execute (O10), not a prefix of them
         out += [('(arity _)', 'release')]
         # the same claims against the real StaticEnvironment (case-folded names, non-ASCII spellings, the whole standard library registered)
         out += [(c, 'release') for c in misc.gen_respell(tier, R)]
@@ -321,9 +321,10 @@ class C09(Prop):
         for v, off in (('release', 1), ('debug', 1), ('release-zb', 0), ('debug-zb', 0)):
             t = tier if v == 'release' else 'quick'
             cs = builtins.gen_c09(t, R, off)
-            if v != 'release' and tier == 'quick':
-                cs = cs[::2]
-            out += [(c, v) for c in cs]
+            out += [(c, v) for c in cs]   # every case in every build (a stride sample of the non-release builds once hid half of each family)
+        # the structured calendar and conversion cases of C16 / C17 too (month ends, leap days, whole-year increments, near-integers): totality in both overflow settings
+        extra = [c for c in builtins.gen_c16('quick', R) if c.startswith('(bi ')] + [c for c in builtins.gen_c17('quick', R) if c.startswith('(bi ')][::3]
+        out += [(c, v) for v in ('release', 'debug') for c in extra]
         return out
 
     def known(self, line, k, o):
@@ -368,6 +369,7 @@ class C14(Prop):
                 out.append(('(foldcall _ ' + S_(nme) + ''.join(' ' + a for a in sh) + ')', 'release'))
         pool = builtins.POOL
         out.append(('(hashclass _ ' + ' '.join(pool) + ')', 'release'))
+        out.append(('(hashclass _ ' + ' '.join(builtins.EQ_SPELLINGS) + ')', 'release'))
         return out
 
     def known(self, line, k, o):
